@@ -262,11 +262,16 @@ def _LookupClassReferences(serializable_ast, module_map, self_name):
   class_lookup = visitors.LookupExternalTypes(module_map, self_name=self_name)
   raw_ast = serializable_ast.ast
 
-  decorators = {  # pylint: disable=g-complex-comprehension
-      d.type.name
-      for c in raw_ast.classes + raw_ast.functions
-      for d in c.decorators
-  }
+  decorators = set()
+
+  def collect_decorators(nodes):
+    # Decorators of methods and of nested classes count, too.
+    for c in nodes:
+      decorators.update(d.type.name for d in c.decorators)
+      if isinstance(c, pytd.Class):
+        collect_decorators(c.methods + c.classes)
+
+  collect_decorators(raw_ast.classes + raw_ast.functions)
 
   for node in serializable_ast.class_type_nodes or ():
     try:
